@@ -178,6 +178,16 @@ def checkHash (out : Bytes) (expected : String) : Bool :=
   | none => false
   | some e => decide (sha256 out = e)
 
+/-- signature gate of `update_internal`: with a key, the offer must carry a signature that
+    verifies over the hex SHA-256 of the inflated file. -/
+def signatureOk (env : Env) (key : Option String) (sig : Option String) (out : Bytes) : Bool :=
+  match key with
+  | none => true
+  | some k =>
+    match sig with
+    | none => false
+    | some s => env.verify k (hashFile out) s
+
 /-! ### API calls -/
 
 /-- `shorebird_init` -/
@@ -261,6 +271,7 @@ inductive UpdateOut where
   | errBase             -- -1, base library cannot be opened
   | errInflate          -- -1, decompress / bipatch failure
   | errHash             -- -1, hash mismatch or malformed hash
+  | errSignature        -- -1, key configured and the signature is missing or does not verify
 deriving DecidableEq, Repr, Inhabited
 
 def UpdateOut.status : UpdateOut → Int
@@ -312,6 +323,7 @@ def update (env : Env) (w : World) (chan : Option String) (sc : UpdateScript) :
                 | .error _ => ({ w with disk := d }, .errInflate, acts)
                 | .ok out =>
                   if ¬ checkHash out o.hash then ({ w with disk := d }, .errHash, acts)
+                  else if ¬ signatureOk env cfg0.key o.sig out then ({ w with disk := d }, .errSignature, acts)
                   else
                     let d := secInstall cfg0 d o out
                     ({ w with disk := d }, .installed,
